@@ -1182,7 +1182,43 @@ def call_bound_builtin(I, bb: BoundBuiltin, args, kwargs, node):
             t = I.as_bv(I.force(args[0]))
             if t is not None and t.parts == (BNL(),):
                 return Const(sum(1 for x in recv.parts if isinstance(x, BNL)))
-        if name in ("partition", "split", "splitlines"):
+        if name == "splitlines":
+            # bytes.splitlines breaks at \n, \r and \r\n.  Segments are newline-free but may contain a carriage
+            # return: decided per segment (at most one CR per segment is explored), splitting it into a head that
+            # ends with the CR and an optional tail.
+            keep = kwargs.get("keepends", args[0] if args else FALSE)
+            if not (isinstance(keep, Const) and keep.v is True):
+                return Unk(I.fresh(f"{recv!r}.splitlines()"), "byteslist")
+            lines, cur = [], []
+            parts = list(recv.parts)
+            i = 0
+            while i < len(parts):
+                x = parts[i]
+                if isinstance(x, BNL):
+                    cur.append(x)
+                    lines.append(BV(tuple(cur)))
+                    cur = []
+                elif isinstance(x, BSeg) and not (x.lo or x.hi) and not x.name.endswith(("~h", "~t")) and I.decide(f"hascr:{x.name}", [False, True]):
+                    head = BSeg(x.name + "~h")
+                    I.positive_syms.add(f"len({head.name})")
+                    tail = I.decide(f"crtail:{x.name}", [True, False])
+                    cur.append(head)
+                    if not tail and i + 1 < len(parts) and isinstance(parts[i + 1], BNL):
+                        cur.append(parts[i + 1])         # \r\n is one line break
+                        i += 1
+                    lines.append(BV(tuple(cur)))
+                    cur = []
+                    if tail:
+                        t_ = BSeg(x.name + "~t")
+                        I.positive_syms.add(f"len({t_.name})")
+                        cur.append(t_)
+                else:
+                    cur.append(x)
+                i += 1
+            if cur:
+                lines.append(BV(tuple(cur)))
+            return I.alloc(AList(lines))
+        if name in ("partition", "split"):
             t = I.as_bv(I.force(args[0])) if args else BV((BNL(),))
             if t is not None and t.parts == (BNL(),) and name == "partition":
                 for i, x in enumerate(recv.parts):
